@@ -1,4 +1,6 @@
 """C07 - mandoline 3D slices interpolate the right samples at every pixel."""
+import contextlib
+import io
 import random
 from fractions import Fraction
 import numpy as np
@@ -174,7 +176,14 @@ def run_case(seed):
             fields = ['grid_level']
         else:
             fields = rng.sample(keys, rng.randint(1, len(keys))) + ['grid_level']
+            rg = random.Random(seed * 811 + k)
+            if rg.random() < 0.5:
+                # the level map asked for anywhere in the list, not only last
+                fields.remove('grid_level')
+                fields.insert(rg.randrange(len(fields) + 1), 'grid_level')
         serial = rng.random() < 0.5
+        verb = random.Random(seed * 4409 + k).choice([0, 0, 1, 2, 3])
+        count(f"verbosity={verb}")
         if k % 2 == 1 and prev is not None:
             # the second slice of a pair is cut with the SAME Mandoline object (same fields, limit, mode), elsewhere
             fields, _, serial = prev[1]
@@ -185,7 +194,7 @@ def run_case(seed):
         count(f"position={kindp}")
         count(f"fields={fk}")
         desc = dict(seed=seed, normal=cn, position_kind=kindp, position_units_of_dx_over_8=P, pos=pos, fields=fields,
-                    limit_level=limit_arg, serial=serial, payload=pkind, meta=pf.meta)
+                    limit_level=limit_arg, serial=serial, payload=pkind, meta=pf.meta, verbose=verb)
         core.set_policy(rng.choice(['identity', 'reverse', 'random']), seed + k)
         def digest(o):
             return {n: (np.asarray(v).shape, np.asarray(v).tobytes()) for n, v in o.items()} if isinstance(o, dict) else None
@@ -195,8 +204,9 @@ def run_case(seed):
             if k % 2 == 1 and prev is not None:
                 obj = prev[0]
             else:
-                obj = Mandoline(path, fields=fields, limit_level=limit_arg, serial=serial, verbose=0)
-            r = obj.slice(normal=cn, pos=pos, fformat='return')
+                obj = Mandoline(path, fields=fields, limit_level=limit_arg, serial=serial, verbose=verb)
+            with contextlib.redirect_stdout(io.StringIO()):
+                r = obj.slice(normal=cn, pos=pos, fformat='return')
             if k % 2 == 0:
                 prev = (obj, (list(fields), limit_arg, serial), r, digest(r))
             return r
